@@ -413,7 +413,7 @@ func ruleSingleRootStore(r *Report, fi *FuncInfo, rule string) {
 			return true
 		}
 		okDom := !g.ReachesNode(st.Stmt, at)
-		r.Ob(rule, fi.Name+"/populate-before-publish/"+fs.Field.Name()+"[]", at.Pos(), okDom, "element store into "+snap.Name()+"."+fs.Field.Name()+" precedes the root swap")
+		r.Ob(rule, fi.Name+"/populate-before-publish/"+canonFieldName(fs.Field)+"[]", at.Pos(), okDom, "element store into "+snap.Name()+"."+canonFieldName(fs.Field)+" precedes the root swap")
 		return true
 	})
 }
